@@ -7,6 +7,7 @@ package absnfs
 import (
 	"encoding/json"
 	"strings"
+	"time"
 
 	"github.com/absfs/absnfs/internal/verif/vsched"
 )
@@ -54,7 +55,9 @@ func init() {
 		shards: func(string) int { return 16 },
 		rule: "stateless model checking (controlled scheduler, source-instrumented server): the request-vs-policy-update scenarios of C16 (replies produced while an update drains and swaps, incl. early request timeouts) and the three-client request histories of C29 (minimal-TTL regime; thorough adds the cold-cache regime); every choice sequence within D-bound 2 (thorough D-bound 3, P-bound 2); every reply of every execution must parse as an RFC 1831 reply echoing its xid and decode exactly as the RFC 1813 result of its procedure and status.",
 		assumptions: []string{"scheduling points are the synchronisation operations of the instrumented package plus every backend call"},
-		run:         func(c *vCtx) { vSchedRun(c, "C14", c14ConcScenarios(c.thorough())) },
+		run: func(c *vCtx) {
+			vSchedRunBudget(c, "C14", c14ConcScenarios(c.thorough()), []vPlan{{"D", 2}}, []vPlan{{"D", 3}, {"P", 2}}, 20*time.Minute)
+		},
 		replay:      func(c *vCtx, raw json.RawMessage) { vSchedReplay(c, "C14", c14ConcScenarios(true), raw) },
 	})
 }
